@@ -12,7 +12,6 @@ listed: they are tied semantically, not textually.
 namespace Evalexpr.Spec.Fingerprints
 
 def fpBuiltin : List Nat := [
-  0x276cf3e83fcf4cc97a1ebe66dfb044d4  /- function/builtin.rs::<file> -/,
   0x047d42047c91a3ccd43827d008a4442c  /- value/display.rs::fmt -/]
 
 def fpContext : List Nat := [
@@ -31,10 +30,6 @@ def fpEval : List Nat := [
   0x09c1d7347ef767ee74d419bb3b0d0d65  /- value/mod.rs::is_boolean -/,
   0x43e79009da0b876532aff0e302b5b509  /- value/mod.rs::is_tuple -/,
   0x228612cc3b547cc595f37e5f8485b52b  /- value/mod.rs::is_empty -/,
-  0xf47edf40b99a9ef7617a0172cef4bb28  /- value/mod.rs::as_ranged_len_tuple -/,
-  0x345f8858262d4ca2ed1c786db039137e  /- value/mod.rs::str_from -/,
-  0xba27f51ff26fe25534c525e4ae05334c  /- value/mod.rs::from#1 -/,
-  0x38314c1d8f01103b308fdbc26cdf72b3  /- value/mod.rs::from#2 -/,
   0x0faf4a569ab731bdfd863a00e832005d  /- value/mod.rs::from#3 -/,
   0x1cf140d1c429c14893c81bdcb75862ee  /- value/mod.rs::from#4 -/,
   0x6d4c0f2ee8146a525f6530f0b9c057c5  /- value/mod.rs::from#5 -/,
@@ -49,10 +44,6 @@ def fpInterface : List Nat := [
 ]
 
 def fpIter : List Nat := [
-  0xffed37c0e78e449e9923828cef296c36  /- tree/iter.rs::new#0 -/,
-  0x3944e03caf95ff57519677a22ddba2bf  /- tree/iter.rs::new#1 -/,
-  0x2605f5cc2a0e6b0a01d7a7df95fcc242  /- tree/iter.rs::next#0 -/,
-  0x93c8589d031256017ae98b2778cf23ff  /- tree/iter.rs::next#1 -/,
   0xe50e35b4df26e1be29400cfcaab04c0a  /- tree/iter.rs::iter -/,
   0x75e882bf1d574cfce1eeb3364e505107  /- tree/iter.rs::iter_operators_mut -/,
   0x6cf92f13a8d524bcac9420aec987fe6b  /- tree/mod.rs::iter_identifiers -/,
@@ -83,8 +74,6 @@ def fpLexer : List Nat := [
 
 def fpNumeric : List Nat := [
   0x9af9f29b0865afba015687c19310bbd1  /- value/numeric_types/default_numeric_types.rs::from_hex_str -/,
-  0x7d0b0ebbaf5e387a8332ffa5934ee25d  /- value/numeric_types/default_numeric_types.rs::bit_shift_left -/,
-  0xf76abaf7d3f2158b11e5579929065c82  /- value/numeric_types/default_numeric_types.rs::bit_shift_right -/,
   0xe9052c5407c27fb28bf3688a9d2b386f  /- value/numeric_types/default_numeric_types.rs::random -/]
 
 def fpSerde : List Nat := [
